@@ -815,7 +815,8 @@ def sch_mixwait(ctx: Ctx) -> RuleResult:
         kinds = [s["event"].data["kind"] for s in ss]
         r.ob(len(set(kinds)) <= 1, {"licence": lic, "waits": kinds})
         if len(set(kinds)) > 1:
-            r.violate(f"scheduler {lic} licence: blocking wait({kinds[0]}) then blocking wait({kinds[1]})",
+            ks = sorted(set(kinds))
+            r.violate(f"scheduler {lic} licence: consecutive blocking waits on disjoint in-flight sets ({' + '.join(ks)})",
                       _where(m, ss[0]["event"].node),
                       "with futures of both kinds in flight the scheduler waits for one of EACH kind: a finished node of the second "
                       "kind does not release its successors until a node of the first kind finishes", kinds)
@@ -886,7 +887,12 @@ def sch_exit(ctx: Ctx) -> RuleResult:
                 scan(s.finalbody, in_inner_loop)
 
     scan(m.loop_stmt.body, False)
-    r.ob(True, {"loop test": norm_src(m.loop_stmt.test), "graph": m.G})
+    ok = m.loop_test_graph == m.G
+    r.ob(ok, {"loop test": norm_src(m.loop_stmt.test), "graph": m.G})
+    if not ok:
+        r.violate(f"{m.fn.short}: the scheduler loop does not run 'while the remaining graph is non-empty'", m.fn.loc(m.loop_stmt),
+                  f"the loop test is '{norm_src(m.loop_stmt.test)}': the loop can end (the call returns normally) while selected nodes "
+                  f"are still in flight or not yet started", norm_src(m.loop_stmt.test))
     # the value returned after the loop includes the results object given to execute
     return r
 
